@@ -426,7 +426,7 @@ class ThreeWay:
         self.second = second
         self.given = 0
         self.phase = 0
-        self.advanced = False
+        self.advanced = 0
         self.second_ran = False
 
     def __call__(self, sched, runnable, can_advance):
@@ -447,12 +447,12 @@ class ThreeWay:
                 return held[0]
             self.phase = 2
         if self.phase == 2:
-            sec = [t for t in runnable if t.name == self.second]
+            sec = [t for t in runnable if t.name.startswith(self.second)]
             if sec:
                 self.second_ran = True
                 return sec[0]
-            if not self.second_ran and not self.advanced and can_advance:
-                self.advanced = True
+            if not self.second_ran and self.advanced < 6 and can_advance:
+                self.advanced += 1          # other sleepers may be due first
                 return ADVANCE
             self.phase = 3
         if self.phase == 3:
